@@ -1077,24 +1077,44 @@ func ruleNoUnconditionalRejection(c *Ctx, m *Model, r *E1, validators map[string
 				sites[key] = a
 			}
 			a.n++
+			// every assignment of accepted boundary values to a non-empty subset of the parameters that
+			// occur in the comparison (two fee rates → 8 assignments)
+			var atoms [][]string
 			seen := map[string]bool{}
 			for _, pa := range pas {
-				if seen[pa[0]] {
+				if !seen[pa[0]] {
+					seen[pa[0]] = true
+					atoms = append(atoms, pa)
+				}
+			}
+			if len(atoms) > 4 {
+				atoms = atoms[:4]
+			}
+			total := 1
+			for range atoms {
+				total *= 3
+			}
+			for code := 1; code < total; code++ {
+				sl, ok, desc := l, true, ""
+				for i, cd := 0, code; i < len(atoms) && ok; i, cd = i+1, cd/3 {
+					choice := cd % 3 // 0 = left symbolic, 1 = value 0, 2 = value 1
+					if choice == 0 {
+						continue
+					}
+					v := int64(choice - 1)
+					if !accepted(atoms[i][1], atoms[i][2], v) {
+						ok = false
+						break
+					}
+					sl, ok = substParamLin(sl, atoms[i][0], v, 0)
+					desc += fmt.Sprintf("%s.%s = %d ", atoms[i][1], atoms[i][2], v)
+				}
+				if !ok || !sl.IsConst() {
 					continue
 				}
-				seen[pa[0]] = true
-				for _, v := range []int64{0, 1} {
-					if !accepted(pa[1], pa[2], v) {
-						continue
-					}
-					sl, ok := substParamLin(l, pa[0], v, 0)
-					if !ok || !sl.IsConst() {
-						continue
-					}
-					nJudged++
-					if evalCmpFact(mm[1], mm[2], sl.C) && a.bad == "" {
-						a.bad = fmt.Sprintf("with %s.%s = %d, which the state validator accepts, the rejecting comparison %s is true for every request and state: every call that reaches it fails (path {%s})", pa[1], pa[2], v, f, outcomeLabel(h, o))
-					}
+				nJudged++
+				if evalCmpFact(mm[1], mm[2], sl.C) && a.bad == "" {
+					a.bad = fmt.Sprintf("with %s— values the state validator accepts — the rejecting comparison %s is true for every request and state: every call that reaches it fails (path {%s})", desc, f, outcomeLabel(h, o))
 				}
 			}
 		}
